@@ -34,7 +34,7 @@ struct InFlightShell { bool in_; void insert(const IdShell&, ATV*) { in_ = true;
 struct SignalShell { unsigned n_; void emit(const ATV&) { n_++; } void emit(const VTB&) { n_++; } void emit(const VbkBlock&) { n_++; } };
 struct RelSetShell { bool has_; void insert(ATV*) { has_ = true; } void push_back(VTB*) { has_ = true; } };
 struct VbkPayloadsRelations { RelSetShell atvs, vtbs; };
-struct ConnMapShell { bool in_; size_t count(const IdShell&) const { return in_ ? 1 : 0; } };   // stored_atvs_ / stored_vtbs_ / vbkblocks_: membership of the observed payload
+struct ConnMapShell { bool in_; void* slot_; size_t count(const IdShell&) const { return in_ ? 1 : 0; } void*& operator[](const IdShell&) { in_ = true; return slot_; } };   // stored_atvs_ / stored_vtbs_ / vbkblocks_: membership of the observed payload
 struct MemPool {
   enum Status { VALID = 0, FAILED_STATEFUL = 1, FAILED_STATELESS = 2 };
   struct SubmitResult {   // mempool.hpp: by default VALID; (Status, bool) keeps the status; (bool) asserts true
@@ -51,9 +51,16 @@ struct MemPool {
   SignalShell on_atv_accepted, on_vtb_accepted, on_vbkblock_accepted;
   // mempool.cpp getOrPutVbkRelation: vbkblocks_.insert({id, block}); relations_[id] created if absent
   VbkPayloadsRelations& getOrPutVbkRelation(VbkBlock*) { vbkblocks_.in_ = true; relation_ = true; return rel_; }
-  // mempool.hpp makePayloadConnected<T>: connected[id] = t; inflight.erase(id); signal.emit(*t)
-  void makePayloadConnected_ATV(ATV* t) { stored_atvs_.in_ = true; atvs_in_flight_.erase(t->getId()); on_atv_accepted.emit(*t); }
-  void makePayloadConnected_VTB(VTB* t) { stored_vtbs_.in_ = true; vtbs_in_flight_.erase(t->getId()); on_vtb_accepted.emit(*t); }
+  // mempool.cpp: getMap<T>() / getInFlightMap<T>() / getSignal<T>() specialisations (which member each type maps to)
+  ConnMapShell& getMapMut_ATV() { return stored_atvs_; }
+  ConnMapShell& getMapMut_VTB() { return stored_vtbs_; }
+  InFlightShell& getInFlightMapMut_ATV() { return atvs_in_flight_; }
+  InFlightShell& getInFlightMapMut_VTB() { return vtbs_in_flight_; }
+  SignalShell& getSignal_ATV() { return on_atv_accepted; }
+  SignalShell& getSignal_VTB() { return on_vtb_accepted; }
+  // makePayloadConnected<T> sliced from mempool.hpp, instantiated textually for ATV and VTB
+#include "slices/makePayloadConnected_ATV.inc"
+#include "slices/makePayloadConnected_VTB.inc"
   SubmitResult submit_ATV(ATV* atv, bool doIsBlockOldCheck, ValidationState& state);
   SubmitResult submit_VTB(VTB* vtb, bool, ValidationState& state);
   SubmitResult submit_VbkBlock(VbkBlock* blk, bool doIsBlockOldCheck, ValidationState& state);
